@@ -463,7 +463,9 @@ type c02Exp struct {
 	Xs    []string  `json:"xs,omitempty"` // binders of lettup ("_" allowed) / lam
 	Args  []*c02Exp `json:"a,omitempty"`
 	Lit   string    `json:"lit,omitempty"`
-	Block bool      `json:"blk,omitempty"` // if: multi-line form (block level only)
+	Ty    *c02Ty    `json:"ty,omitempty"`   // field: the type of the field at this access (known to the generator)
+	Block bool      `json:"blk,omitempty"`  // if: multi-line form (block level only)
+	Elif  bool      `json:"elif,omitempty"` // a multi-line if that is the else branch of a multi-line if: printed as elif
 }
 
 func (e *c02Exp) inline() string {
@@ -527,8 +529,15 @@ func (e *c02Exp) block(ind string) []string {
 		if e.Block {
 			out := []string{ind + "if " + e.Args[0].inline() + " then"}
 			out = append(out, e.Args[1].block(ind+"  ")...)
-			out = append(out, ind+"else")
-			return append(out, e.Args[2].block(ind+"  ")...)
+			for el := e.Args[2]; ; el = el.Args[2] {
+				if el.K == "if" && el.Block && el.Elif {
+					out = append(out, ind+"elif "+el.Args[0].inline()+" then")
+					out = append(out, el.Args[1].block(ind+"  ")...)
+					continue
+				}
+				out = append(out, ind+"else")
+				return append(out, el.block(ind+"  ")...)
+			}
 		}
 	}
 	return []string{ind + e.inline()}
@@ -558,7 +567,7 @@ func (e *c02Exp) sexp(blind bool) string {
 		return "(ctor " + Sq(e.Name) + " " + Sq(e.Name2) + " " + j + ")"
 	case "field":
 		if blind {
-			return "(global \"?blind\" " + j + ")"
+			return "(global " + Sq(e.blindName()) + " " + j + ")"
 		}
 		return "(field " + Sq(e.Name) + " " + Sq(e.Name2) + " " + j + ")"
 	case "global":
@@ -588,6 +597,29 @@ func (e *c02Exp) sexp(blind bool) string {
 		return "(lam (" + strings.Join(bs, " ") + ") " + j + ")"
 	}
 	panic("sexp: " + e.K)
+}
+
+// blind stand-in of a field access: any argument, the field's (known, ground) type as result
+func (e *c02Exp) blindName() string {
+	if e.Ty == nil || e.Ty.hasVar() {
+		return "?blind"
+	}
+	return "?blind:" + e.Ty.sexp()
+}
+
+// table entries of the blind stand-ins used in a body
+func (e *c02Exp) blindSigs(out map[string]string) {
+	if e.K == "field" {
+		n := e.blindName()
+		if n == "?blind" {
+			out[n] = `("?blind" 2 ((tv 0)) (tv 1))`
+		} else {
+			out[n] = "(" + Sq(n) + " 1 ((tv 0)) " + e.Ty.sexp() + ")"
+		}
+	}
+	for _, a := range e.Args {
+		a.blindSigs(out)
+	}
 }
 
 func (e *c02Exp) count(m map[string]int) {
@@ -623,7 +655,8 @@ type c02Func struct {
 	Params []c02Param `json:"params"`
 	Body   *c02Exp    `json:"body"`
 	// by-construction signature; valid for every variant that erases only annotations marked Red
-	Expect string `json:"expect,omitempty"`
+	Expect string         `json:"expect,omitempty"`
+	Feats  map[string]int `json:"-"` // generator-side feature counts (evidence only)
 }
 type c02Prog struct {
 	ID     int        `json:"id"`
